@@ -51,6 +51,52 @@ CHECKS = {
              "durability not observable. Interposition on rope.base.project.open and os.replace/rename/remove.",
         technique="TLA+ spec RopePersist + TLC; trace validation of recorded save traces (TracePersist); byte-level crash enumeration on the real code",
     ),
+    "C12": dict(
+        category="model_checking",
+        text="(a) spec/RopeHistory.tla with the Reopen action (close the project, open a new one on the directory; a no-op "
+             "on the abstract state): TLC exhausts histories of <=5 calls with a reopen at any position (also repeated) and "
+             "random walks of 10 calls; each is replayed on a real project saving its history with unicode/multi-line "
+             "contents: the reloaded lists must equal the saved ones (order, descriptions, contents) and every later "
+             "undo/redo/selective undo must give the spec's trees; a failure counts only if the twin history without the "
+             "reopen does not fail identically (ReopenTransparent). (b) object db: analysed module, close/reopen twice, "
+             "stored mapping equal. (c) spec/Serial.tla transcribes python_to_json/json_to_python; TLC checks RoundTrip, "
+             "EncodedIsJson, NoKeyCollision for every value of the bounded universe (tuple/numeric-string/None keys, both "
+             "versions) and each value goes through the real encoder, json text and decoder and ScopeInfo's state hooks.",
+        design_ref="3.1 C12",
+        note="Bounded: histories over a 9-path universe, values of depth <=3 (quick) / <=4 (thorough) over 6 atoms and 7 "
+             "key kinds; save is not interrupted (C18). Trusts TLC and json.",
+        technique="TLA+ specs RopeHistory (+Reopen) and Serial + TLC; replay with real close/reopen and twin run; value round trip through the real serializer",
+    ),
+    "C13": dict(
+        category="model_checking",
+        text="spec/RopeCache.tla models the file-list cache, the module cache with wholesale forgetting of concluded data, "
+             "the filtered observer's watch list with change indicators, rope-made changes with observer fan-out, "
+             "changes behind rope's back and validate; TLC checks FilesCoherent, SourceCoherent, InferNoStalePositive, "
+             "CachedIsWatched exhaustively (every action order to 3-5 operations, deeper under a VIEW) and random walks. "
+             "Every behaviour is replayed on a real project; in each quiet state a battery (files, python files, "
+             "find_module, source, attribute names, definition locations, first-level inferred objects, occurrences) is "
+             "compared between the warm project and a brand-new Project on the same directory.",
+        design_ref="3.1 C13",
+        note="5-path package-shaped universe, 5 module bodies; external edits change (mtime,size) (set explicitly); "
+             "auto-import index not included. The differential oracle needs no model of inference; the model supplies the "
+             "behaviours and classifies the one known gap (StaleNegative).",
+        technique="TLA+ spec RopeCache + TLC invariants; replay with warm-vs-fresh differential oracle",
+    ),
+    "C09": dict(
+        category="model_checking",
+        text="spec/RopeEffects.tla states the request contract over project/ignored/outside regions (TLC: consistent, a "
+             "well-behaved implementation satisfies every clause). Every refactoring kind (22) is issued at every offset "
+             "of every module of a fixture project that imports an out-of-project module and contains an ignored module, "
+             "with and without resources=; one effect trace per request (files changed by compute, announced, changed by "
+             "perform, written with non-previewed content, error class) is validated by TLC against "
+             "spec/TraceEffects.tla whose invariants are the contract's clauses (PureCompute, OnlyAnnounced, "
+             "InsideProject, NothingOutside, PreviewMatches, RefusalClean).",
+        design_ref="3.1 C09",
+        note="One fixture project; effects observed on the project root and the sibling python_path folder (bytes, and "
+             "mtime for the compute phase). Trace validation in the monitoring sense: the model is a contract, the "
+             "strength is that every request at every offset is checked.",
+        technique="TLA+ contract spec RopeEffects + TLC trace validation (TraceEffects) of effect traces recorded from the real refactorings",
+    ),
 }
 
 NOT_YET = "check not built yet in this round; see DESIGN.md section 3 for the planned spec and binding"
